@@ -63,11 +63,16 @@ Theorem c01_rejected_never_runs : forall coin_lt w now m k r, do_begin coin_lt w
 Proof. exact rejected_never_runs. Qed.
 Print Assumptions c01_rejected_never_runs.
 
-(* an let_in call that ends records exactly one outcome: success iff acceptable(err); a panic and an
-   unacceptable error are failures, and the outcome (error or panic) is what the caller gets back *)
+(* a call that was let in and ends records exactly one outcome: success iff the caller's predicate holds
+   of its error -- the default predicate (err == nil) for Do / DoWithFallback, the caller-supplied one for
+   the two ...Acceptable variants, INCLUDING predicates that reject a nil error or accept non-nil errors;
+   a panic is a failure whatever the predicate; the outcome (error or panic) is what the caller gets back *)
 Theorem c01_one_mark_per_call_let_in : forall w now k o,
   do_end w now k o = (add w now (if acceptable k o then 1 else 0), RRan o) /\
-  acceptable k Panics = false /\ acceptable k UnacceptableErr = false /\ acceptable k OK = true.
+  acceptable k Panics = false /\
+  (uses_default k = true -> (acceptable k o = true <-> o = OK)) /\
+  (forall p, acceptable (KDoWithAcceptableP p) o = pred_ok p o /\ acceptable (KDoWithFallbackAcceptableP p) o = pred_ok p o) /\
+  pred_ok PRejectsNil OK = false /\ pred_ok PAll UnacceptableErr = true.
 Proof. exact one_mark_per_end. Qed.
 Print Assumptions c01_one_mark_per_call_let_in.
 
@@ -142,6 +147,23 @@ Proof. vm_compute. split; reflexivity. Qed.
 (* and every thread gets its breaker: the forced interleaving of 4 goroutines ends with one identity *)
 Example c01_registry_forced_interleaving : ndistinct (reg_ids 4) = 1%nat /\ List.length (reg_ids 4) = 5%nat.
 Proof. vm_compute. split; reflexivity. Qed.
+
+(* RPC interceptors as streams: for every call class a transport can produce -- status.Error(code) under a live
+   context, the DeadlineExceeded status of a caller whose own deadline has expired, the Canceled status of a
+   cancelled caller, a panic -- the mark made through the generated codes.Acceptable is the statement's: an
+   expired deadline is a failure (it moves the breaker), Canceled never does *)
+Theorem c01_ctx_outcomes :
+  (forall cl c, (cl <= 2)%nat -> 0 <= c <= 16 -> m_mark cl c = m_benign cl c) /\
+  (forall c, m_mark 1 c = false) /\ (forall c, m_mark 2 c = true) /\ (forall cl c, (3 <= cl)%nat -> m_mark cl c = false).
+Proof. exact ctx_outcomes. Qed.
+Print Assumptions c01_ctx_outcomes.
+
+(* every sqlx / redis call site classifies with the generated predicate of its package: the benign error
+   classes (nil, ErrNoRows, ErrTxDone, context.Canceled; nil, redis.Nil, context.Canceled) are success marks *)
+Theorem c01_call_sites_benign : forall arg, 0 <= arg ->
+  (benign 7 arg = true -> pred 7 arg = true) /\ (benign 8 arg = true -> pred 8 arg = true).
+Proof. exact site_benign. Qed.
+Print Assumptions c01_call_sites_benign.
 
 (* ---------------- non-vacuity ---------------- *)
 Example c01_rejection_happens :
